@@ -36,7 +36,7 @@ def _known(run: Run, pre: List[tuple]) -> List[str]:
 
 
 def _has_region(e: dict) -> bool:
-    return e.get("id") in regions.DYNAMIC or e.get("id") in regions.STATIC
+    return e.get("id") in regions.DYNAMIC or e.get("id") in regions.STATIC or e.get("id") in regions.ASSUMED
 
 
 def _replay_known(w: dict):
@@ -62,7 +62,7 @@ def main() -> int:
         return run.finish()
     items, info = ormrun.scalar_items(run.tier, run.seed, {3: 500, 4: 200, 5: 80, 6: 25},
                                       {3: 12000, 4: 7000, 5: 3500, 6: 1500, 7: 500}, 700, (100, 150), (3000, 3000))
-    timeout_ms = 10000 if quick else 60000
+    timeout_ms = 60000 if quick else 120000
     pre = [(_replay_known, (e["witness"],)) for e in run.known if _has_region(e)]
     muts = selftest_orm.items(BACKENDS, timeout_ms)
     for it in items:
